@@ -144,11 +144,6 @@ def r4_initialization(ctx):
     ctx.check(not bad, "C14.R4", fn.key, "pushes-unevaluated-once", "initialize() producing %s solutions: the driver %s" % (bad[0] if bad else ("", "")), loc=fn.loc())
     impls = [f for f in F.all_fns if f.impl_trait == "mahf::components::initialization::Initialization" and f.name == "initialize"]
     ctx.floor("C14.R4", "Initialization implementations", len(impls), 3)
-    for f in impls:
-        ex = F.fn_opt("<%s as mahf::components::Component>::execute" % f.impl_self_adt)
-        r = ex.body.expr_of_local(0) if ex else None
-        good = ex is not None and r[0] == "call" and r[1] == "mahf::components::initialization::initialization" and len(list(ex.body.calls())) == 1
-        ctx.check(good, "C14.R4", f.impl_self_adt, "executes-through-driver", "execute() is not exactly initialization(self, problem, state)", loc=(ex or f).loc())
     FU = "mahf::components::initialization::functional::"
     # the components' initialize(): the requested number of solutions of the PROBLEM's dimension (the generators below are
     # inlined, so swapped / wrong arguments show in the shape of what comes out)
@@ -244,6 +239,7 @@ def r4_initialization(ctx):
 
 
 def run(ctx):
+    ctx.guard("C14.DRV", "operators execute through their driver", lambda: __import__("initspec").check_delegations(ctx, "C14", 5))
     ctx.guard("C14.K17", "constructor fidelity", lambda: __import__("ctor").check_for(ctx, "C14", 17))
     ctx.guard("C14.R1", "constrain", lambda: r1_constrain(ctx))
     ctx.guard("C14.R3", "driver", lambda: r3_driver(ctx))
